@@ -187,15 +187,22 @@ def run_scripts(run, scripts, variants):
             if res is not None and meta:
                 apply_meta(run, title, v, script, res, meta)
 
+def kernel_tie(run, cfgs):
+    import kernels as K
+    run.kernel_failures = K.check_kernels(run, list(cfgs))
+
 def p_c01(run):
     cfgs = ("native", "w32", "neutral") if run.tier == "quick" else tuple(C.CONFIGS)
+    kernel_tie(run, ("native", "w32", "neutral") if run.tier == "quick" else ("native", "w32", "neutral", "neutral32"))
     run_scripts(run, G.gen_c01(run.rng, run.tier), std_variants(run, cfgs))
 def p_c02(run):
     cfgs = ("native", "w32", "neutral") if run.tier == "quick" else tuple(C.CONFIGS)
+    kernel_tie(run, ("native", "w32", "neutral") if run.tier == "quick" else ("native", "w32", "neutral", "neutral32"))
     run_scripts(run, G.gen_c02(run.rng, run.tier), std_variants(run, cfgs))
 def p_c03(run):
     cfgs = ("native", "nosimd32") if run.tier == "quick" else ("native", "w32", "nosimd", "nosimd32", "neutral")
     vs = std_variants(run, cfgs)
+    kernel_tie(run, ("native", "w32") if run.tier == "quick" else ("native", "w32", "neutral", "neutral32"))
     for title, script, meta in G.gen_c03(run.rng, run.tier):
         for v in vs:
             for be in (("def", "v128", "v256") if v.has128 else ("def",)):
@@ -418,6 +425,13 @@ def main():
         # 2. correspondence + oracles
         run.model = C.build_model()
         PROPS[prop](run)
+        for kf in getattr(run, "kernel_failures", []):
+            concrete = [v for v in run.violations if not v[2]]
+            run.add_violation({"property": prop, "kind": "kernel-obligation",
+                               "what": "a kernel regenerated from the current source (configuration %s) no longer equals its specification step: %s"
+                                       % (kf["cfg"], ", ".join(f["kernel"] for f in kf["failed"]) or kf.get("stage")),
+                               "theorems": [f["kernel"] + "_check" for f in kf["failed"]], "kernel_counterexamples": kf["failed"],
+                               "stage": kf.get("stage"), "log": kf.get("log", "")[-1200:]}, no_input=not concrete)
     except C.BuildError as e:
         desc = {"property": prop, "kind": "build", "what": "the library does not build for variant %s" % e.name, "log": e.log[-3000:]}
         run.add_violation(desc, no_input=True)
@@ -441,7 +455,10 @@ def main():
 def write_evidence(run, coq, path):
     from levels import LEVEL, TRUSTED, ASSUME
     st = run.stats
-    cov = {"obligations": coq["obligations"], "discharged": coq["discharged"],
+    ks = getattr(run, "kernel_stats", None)
+    if ks:
+        coq = dict(coq); coq["obligations"] += ks["kernel_obligations"]; coq["discharged"] += ks["discharged"]
+    cov = {"obligations": coq["obligations"], "discharged": coq["discharged"], "kernel_tie": ks,
            "checker_cmd": "cd /verif/coq && make -k -j16 Properties_%s.vo && coqc -Q . Skinny Properties_%s.v (Print Assumptions)" % (run.prop, run.prop),
            "trusted_base": TRUSTED.get(run.prop, TRUSTED["*"]),
            "theorems": coq["theorems"], "print_assumptions": coq["assumptions"],
